@@ -752,3 +752,58 @@ def member_crossing(ctx, rule: str, family: Optional[str], shared: bool = False)
                         ctx.fail(rule, fn, x, f"{fn.short} writes the member \"{m}\" depending on `{norm(t.ast)[:50]}`, which speaks about its member \"{oth[0]}\": the guards of two members are crossed",
                                  construct=f"member {m} guarded by {oth[0]} in {fn.short}")
     ctx.ok(rule, "named members filled from the value of the same name", f"{n} constant-key stores in functions")
+
+
+VALIDATOR_PROBES = ["", "a", "http://x", "https://x", "ftp://x", "httpx", 0, 1, -1, True, False, None, 1.5, [], ["a"], ["a", "b"], ["a", 1], [1], [["a"]], [None],
+                    ("a",), {}, {"a": 1}, b"a"]
+
+VALIDATOR_SPEC = {
+    "is_str": lambda v: isinstance(v, str),
+    "is_int": lambda v: isinstance(v, int),
+    "is_bool": lambda v: isinstance(v, bool),
+    "is_jwk": lambda v: isinstance(v, dict),
+    "is_list_str": lambda v: isinstance(v, list) and all(isinstance(x, str) for x in v),
+    "is_url": lambda v: isinstance(v, str) and v.startswith(("http://", "https://")),
+}
+
+
+def validator_verdicts(eng, fn: FunctionInfo) -> Optional[Dict[int, str]]:
+    """Fold a one-argument value validator on the probe battery: index of the probe -> "ok" | name of the exception class it raises.
+    None when some probe does not fold or a test of the validator was decided the same way on every probe (11.11: a sample, not a decision)."""
+    import copy as _copy
+    from ..fold import FuncVal, FoldRaise, is_unknown
+    F = eng.folder
+    out: Dict[int, str] = {}
+    F.start_trace()
+    try:
+        for i, v in enumerate(VALIDATOR_PROBES):
+            try:
+                r = F.call(FuncVal(fn, None, None), [_copy.deepcopy(v)], {})
+            except FoldRaise as e:
+                out[i] = getattr(e, "name", "") or "?"
+                continue
+            except AnalysisError:
+                return None
+            if is_unknown(r):
+                return None
+            out[i] = "ok"
+    finally:
+        sided = F.one_sided()
+    return None if sided else out
+
+
+def validator_accepts_exactly(eng, fn: FunctionInfo, spec_name: str) -> Optional[List[str]]:
+    """problems ([] = the validator accepts exactly the values of `spec_name` and refuses all others with ValueError); None = not decided by folding"""
+    vd = validator_verdicts(eng, fn)
+    if vd is None:
+        return None
+    want = VALIDATOR_SPEC[spec_name]
+    bad = []
+    for i, v in enumerate(VALIDATOR_PROBES):
+        if want(v) and vd[i] != "ok":
+            bad.append(f"refuses {v!r} ({vd[i]})")
+        elif not want(v) and vd[i] == "ok":
+            bad.append(f"accepts {v!r}")
+        elif not want(v) and vd[i] != "ValueError":
+            bad.append(f"refuses {v!r} with {vd[i]}, not ValueError")
+    return bad
